@@ -18,8 +18,9 @@ RULES = {
     "R5": "what load_h5 restores goes through the constructor's encoders: they join on the identifying columns and hand the mapping columns back unconverted (C01.R1 run here)",
     "R4": "load re-uses the stored mappings (constructor receives them; the supplied-mapping branch builds its table from the mapping verbatim)",
     "R6": "the supplied-mapping branch of both encoders builds the id table from the mapping's columns verbatim (no pruning, re-sorting or renumbering of stored mappings on load; C03.R5 run here)",
+    "R7": "what save_h5 writes is the screen as it is now: no getter of Screen keeps a result derived from state that set_observed or a view (Plate.merge) mutates without being reset by it",
 }
-MIN = {"R1": 16, "R4": 3, "R5": 6, "R6": 4}
+MIN = {"R1": 16, "R4": 3, "R5": 6, "R6": 4, "R7": 2}
 TRUSTED = ["h5py stores and returns numpy arrays of float64/int64/bool/bytes unchanged", "np.char.encode/decode are inverse for utf-8"]
 TECHNIQUE = "writer/reader table extraction from the syntax tree and set comparison against the constructor's parameter list"
 LEVEL_TEXT = ("For every field of every screen at once: the loader restores it from the key under which the writer stored "
@@ -99,7 +100,11 @@ def r_br6(ctx):
     ctx.borrow(C03.r5, "R6")
 
 
-RULE_FUNCS = [r1, r4, r5, r_br6]
+def r7(ctx):
+    common.no_stale_memo(ctx, "R7")
+
+
+RULE_FUNCS = [r1, r4, r5, r_br6, r7]
 
 
 def _rep(a, b):
